@@ -139,6 +139,10 @@ class WorkingHours:
             if dt is None:
                 return False
 
+        return self.containsTime(dt)
+
+    def containsTime(self, dt: datetime) -> bool:
+        """Check if a (local) date/time lies within the working hours."""
         weekday = dt.weekday()
 
         # A day without intervals of its own can still be covered by the morning
